@@ -129,7 +129,7 @@ impl<'a> Renderer<'a> {
             self.lines.push(String::new());
         }
         if self.rng.below(8) < self.lay.comment {
-            let c = *self.rng.pick(&["; comment", ";", "   ; mov ax, 1", "; start: hlt", ";;; print reg"]);
+            let c = *self.rng.pick(&["; comment", ";", "   ; mov ax, 1", "; start: hlt", ";;; print reg", "; caf\u{e9} \u{20ac}5 \u{1f600}"]);
             self.lines.push(c.to_string());
         }
     }
@@ -148,7 +148,8 @@ impl<'a> Renderer<'a> {
         self.filler();
         let mut text = String::new();
         if self.lay.indent && self.rng.chance(1, 2) {
-            text.push_str(*self.rng.pick(&["  ", "\t", "    "]));
+            // blanks, tabs and (one line in five) Unicode white space, which takes more than one byte per character
+            text.push_str(*self.rng.pick(&["  ", "\t", "    ", "  ", "\t", "    ", "  ", "\t", "\u{a0}\u{a0}\u{a0}\u{a0}", "\u{3000}", "\u{2003} \u{a0}"]));
         }
         if let Some(l) = self.pending_label.take() {
             text.push_str(&l);
